@@ -43,6 +43,19 @@ def _inc(ctx, rule, name, fam, rv, what):
               key=f"{rule}|{name}|{what}", witness=repr(cex))
 
 
+def _config_words(ctx):
+    """the settings this property relies on are understood in a config string"""
+    g = lambda a: ctx.fold.get_attr('config.config', 'Config', a)
+    allattrs, bools, pl = g('_CONFIG_ATTRIBUTES'), g('_BOOL_TYPE_ATTRIBUTES'), g('_PLSSDESC_ATTRIBUTES')
+    for name, table, tname in (('ocr_scrub', bools, '_BOOL_TYPE_ATTRIBUTES'), ('ocr_scrub', allattrs, '_CONFIG_ATTRIBUTES'),
+                               ('ocr_scrub', pl, '_PLSSDESC_ATTRIBUTES'), ('default_ns', allattrs, '_CONFIG_ATTRIBUTES'),
+                               ('default_ew', allattrs, '_CONFIG_ATTRIBUTES'), ('default_ns', pl, '_PLSSDESC_ATTRIBUTES'),
+                               ('default_ew', pl, '_PLSSDESC_ATTRIBUTES')):
+        ctx.check(name in table, 'TBL', f"Config.{tname} knows {name!r}",
+                  detail_bad=f"{name!r} is missing from Config.{tname}: the word `{name}` in a config string is "
+                             f"silently ignored / not handed to the description", key=f"TBL|Config.{tname}|{name}")
+
+
 def check(ctx):
     tw = 'rgxlib.twprge'
     g = lambda n: ctx.fold.get(tw, n)
@@ -87,6 +100,7 @@ def check(ctx):
     ctx.attempt(lockdown, ctx.repo.func('PLSSDesc.parse'), only=('default_ns', 'default_ew', 'ocr_scrub'))
     ctx.attempt(lockdown, ctx.repo.func('PLSSDesc.preprocess'), only=('default_ns', 'default_ew', 'ocr_scrub'))
     ctx.attempt(common.embedded_case_consistency, modules=('rgxlib.twprge',))
+    ctx.attempt(_config_words)
 
 
 def _tables(ctx):
